@@ -5,7 +5,7 @@ from ordered_set import OrderedSet
 from xdsl.builder import Builder
 from xdsl.context import Context
 from xdsl.dialects import builtin, x86, x86_func
-from xdsl.dialects.builtin import IntAttr
+from xdsl.dialects.builtin import IntAttr, IntegerAttr, i64
 from xdsl.dialects.x86.registers import (
     R12,
     R13,
@@ -53,6 +53,17 @@ class X86PrologueEpilogueInsertion(ModulePass):
 
         if not used_callee_preserved_registers:
             return
+
+        # The pushes below move the stack pointer: accesses relative to the stack
+        # pointer the function was entered with (stack-passed arguments) move with it.
+        pushed_bytes = 8 * len(used_callee_preserved_registers)
+        for arg in func.body.blocks[0].args:
+            if arg.type != RSP:
+                continue
+            for use in tuple(arg.uses):
+                if isinstance(use.operation, x86.ops.DM_Operation):
+                    offset = use.operation.memory_offset.value.data
+                    use.operation.memory_offset = IntegerAttr(offset + pushed_bytes, i64)
 
         builder = Builder(InsertPoint.at_start(func.body.blocks[0]))
         sp_register = builder.insert(x86.GetRegisterOp(RSP))
